@@ -76,6 +76,16 @@ func (i *InMemoryStore) GetSession(fseid uint64) (PFCPSession, bool) {
 		return PFCPSession{}, false
 	}
 
+	// Hand out copies of the rule lists: handlers update and remove rules in place, and a request
+	// that is rejected half-way must leave the stored record as it was.
+	session.pdrs = append(make([]pdr, 0, len(session.pdrs)), session.pdrs...)
+	for i := range session.pdrs {
+		session.pdrs[i].qerIDList = append(make([]uint32, 0, len(session.pdrs[i].qerIDList)), session.pdrs[i].qerIDList...)
+	}
+
+	session.fars = append(make([]far, 0, len(session.fars)), session.fars...)
+	session.qers = append(make([]qer, 0, len(session.qers)), session.qers...)
+
 	logger.PfcpLog.With("session", session).Debugln("Got PFCP session from local store")
 
 	return session, ok
